@@ -111,7 +111,7 @@ LEVELS = {
        "error bounds judged against exact values.",
   note=COMMON_NOTE),
  "C18": dict(
-  technique="Lean 4 theorems: canonical first vertex is rotation/inversion equivariant, hence turning angle exactly invariant/negated (given bit-symmetric TurnAngle) + numeric judge",
+  technique="Lean 4 theorems: canonical first vertex is rotation/inversion equivariant, hence turning angle exactly invariant/negated (bit level, soft-float) + numeric judge",
   text="Proof: exact rotation invariance and inversion negation of TurningAngle from list reasoning. Partial: area identities judged with "
        "the library's own tolerances and exact containment.",
   note=COMMON_NOTE),
